@@ -540,7 +540,9 @@ class Rule:
 
         if rule_source[-2:] != "\r\n":
             rule_source = rule_source + "\r\n"
-        parse_tree, start = ABNFGrammarRule("rule").parse(rule_source, start)
+        parse_tree, end = ABNFGrammarRule("rule").parse(rule_source, start)
+        if end < len(rule_source):
+            raise ParseError(ABNFGrammarRule("rule"), end)
         visitor = ABNFGrammarNodeVisitor(cls)
         rule = visitor.visit(parse_tree)
         return rule
